@@ -244,6 +244,9 @@ func cmdFull(args []string) *Result {
 	if len(args) == 2 && (args[0] == "specgen" || args[0] == "speccheck") {
 		return cmdFullSpec(args)
 	}
+	if len(args) == 2 && args[0] == "dirgen" {
+		return cmdFullDirected(args[1])
+	}
 	if len(args) == 2 && args[0] == "--replay" {
 		rec := readReplay(args[1])
 		var r fullRec
@@ -420,5 +423,116 @@ func cmdFullSpec(args []string) *Result {
 		res.Extra["spec_examples_differ"] = differ
 		res.Extra["spec_examples_out_of_model_scope"] = outScope
 	}
+	return res
+}
+
+// ---- directed documents for FullDirected.tla ----
+//
+//   full dirgen <out.ndjson>     one record {id, src} per document; the TLC output of FullDirected.tla is then checked by `full <out>`
+//
+// What matters in these documents is a count, so no line-shape set can hold them: runs of 255 / 256 / 257 characters (where a length
+// kept in eight bits wraps), closing fences shorter / equal / longer than a long opening fence, code spans delimited by long backtick
+// strings, long delimiter runs, deep indentation, ten-digit markers, seven '#'.
+func directedDocs() []string {
+	var docs []string
+	add := func(s string) { docs = append(docs, s) }
+	rep := strings.Repeat
+	thorough := os.Getenv("VERIF_TIER") == "thorough"
+	lens := []int{255, 256, 257, 259}
+	if thorough {
+		lens = []int{127, 128, 129, 254, 255, 256, 257, 258, 259, 260, 300, 511, 512, 513, 515, 768}
+	}
+	for _, ch := range []string{"`", "~"} {
+		for _, L := range lens {
+			closers := []int{3, 4, L % 256, L%256 + 3, L - 1, L, L + 1}
+			for _, c := range closers {
+				if c < 1 {
+					continue
+				}
+				body := "a\n" + rep(ch, c) + "\nb\n"
+				add(rep(ch, L) + "\n" + body)
+				add(rep(ch, L) + " x\n" + body + rep(ch, L) + "\nc\n")
+				add("> " + rep(ch, L) + "\n> a\n> " + rep(ch, c) + "\n> b\n")
+				add("- " + rep(ch, L) + "\n  a\n  " + rep(ch, c) + "\n  b\n")
+			}
+			// the opening fence is itself shorter than a run inside
+			add(rep(ch, 3) + "\n" + rep(ch, L) + "\nb\n")
+			add(rep(ch, 3) + "\na\n" + rep(ch, L) + " \nb\n")
+		}
+	}
+	for _, L := range lens {
+		// code spans: equal-length backtick strings only
+		for _, c := range []int{1, 3, L % 256, L%256 + 1, L - 1, L, L + 1} {
+			if c < 1 {
+				continue
+			}
+			add("x " + rep("`", L) + "a" + rep("`", c) + " b " + rep("`", L) + " c\n")
+			add("x " + rep("`", c) + "a" + rep("`", L) + " b " + rep("`", c) + " c\n")
+		}
+		// delimiter runs
+		for _, d := range []string{"*", "_"} {
+			add(rep(d, L) + "a" + rep(d, L) + "\n")
+			add(rep(d, L) + "a" + rep(d, 2) + " b" + rep(d, 1) + "\n")
+			add(rep(d, 2) + "a" + rep(d, L) + "\n")
+			add("a " + rep(d, L) + " b\n")
+		}
+		// indentation: code inside and outside paragraphs and items
+		add(rep(" ", L) + "a\n")
+		add("a\n" + rep(" ", L) + "b\n")
+		add("- a\n\n" + rep(" ", L) + "b\n")
+		add("-" + rep(" ", L) + "a\n")
+		add("1." + rep(" ", L) + "a\n  b\n")
+		add(">" + rep(" ", L) + "a\n")
+		add(rep(" ", L) + "\n" + "a\n")
+		// long thematic breaks, setext underlines, ATX closing sequences
+		add(rep("*", L) + "\n")
+		add(rep("- ", L) + "\n")
+		add("a\n" + rep("=", L) + "\n")
+		add("a\n" + rep("-", L) + "\n")
+		add("# a " + rep("#", L) + "\n")
+		add("## a" + rep("#", L) + "\n")
+		// many blank lines inside lists, code blocks and between blocks
+		add("- a\n" + rep("\n", L) + "- b\n")
+		add("    a\n" + rep("\n", L) + "    b\n")
+		add("```\n" + rep("\n", L) + "```\n")
+		add("a" + rep("\n", L) + "b\n")
+		// long lines of text with a construct at the far end
+		add(rep("a", L) + " *b* `c` [d](e)\n")
+		add(rep("a ", L) + "\\\nb\n")
+	}
+	for _, m := range []string{"123456789", "1234567890", "999999999", "1000000000", "000000000", "0000000001", "0"} {
+		for _, d := range []string{".", ")"} {
+			add(m + d + " a\n")
+			add("a\n" + m + d + " b\n")
+			add(m + d + " a\n" + m + d + " b\n")
+		}
+	}
+	for n := 1; n <= 8; n++ {
+		add(rep("#", n) + " a\n")
+		add(rep("#", n) + "\n")
+		add(rep("#", n) + " a " + rep("#", n+1) + "\n")
+		add(rep(" ", n-1) + "# a\n")
+	}
+	// nesting depth: block quotes and lists
+	for _, d := range []int{20, 40} {
+		add(rep("> ", d) + "a\n")
+		add(rep(">", d) + "a\nb\n")
+		add(rep("- ", d) + "a\n")
+	}
+	return docs
+}
+
+func cmdFullDirected(path string) *Result {
+	res := newResult()
+	f, err := os.Create(path)
+	if err != nil {
+		die("%v", err)
+	}
+	defer f.Close()
+	docs := directedDocs()
+	for i, d := range docs {
+		fmt.Fprintf(f, "{\"id\":%d,\"src\":%s}\n", i+1, jsonString(ints([]byte(d))))
+	}
+	res.Extra["directed"] = len(docs)
 	return res
 }
